@@ -87,3 +87,40 @@ Example and_split_example : all_hold [And (Cmp CGt (Col 0) (Lit (VInt 1%Z))) (Is
   /\ all_hold [IsNull (Col 1); Cmp CGt (Col 0) (Lit (VInt 1%Z))] [VInt 5%Z; VNull] = true
   /\ all_hold [Cmp CGt (Col 0) (Lit (VInt 1%Z))] [VNull; VNull] = false.
 Proof. repeat split; reflexivity. Qed.
+
+(* ---------- pushdown classification (Model/Classify.v) ---------- *)
+Require Import V.Model.Valid V.Model.Classify.
+Lemma dedup_in x l : In x (dedup l) -> In x l.
+Proof.
+  induction l as [|y l IH]; cbn [dedup]; [auto|]. destruct (Classify.mem_s y l); intros H; [right; auto|].
+  destruct H as [->|H]; [left; reflexivity|right; auto].
+Qed.
+Lemma in_dedup x l : In x l -> In x (dedup l).
+Proof.
+  induction l as [|y l IH]; intros H; [destruct H|]. cbn [dedup]. destruct (Classify.mem_s y l) eqn:E.
+  - destruct H as [->|H]; [|auto]. apply IH. unfold Classify.mem_s in E. apply existsb_exists in E. destruct E as (z & Hz & Ez).
+    apply String.eqb_eq in Ez. subst z. exact Hz.
+  - destruct H as [->|H]; [left; reflexivity|right; auto].
+Qed.
+(* a conjunct is pushed into model M's CTE only if every table-qualified column of a model of the query that it mentions belongs to M,
+   and none of them is a metric *)
+Lemma classify_push_sound models is_metric cols m : classify models is_metric (Some cols) = Push m ->
+  (forall tc m', In tc cols -> ref_model models tc = Some m' -> m' = m /\ is_metric m' (snd tc) = false) /\ In m models.
+Proof.
+  unfold classify. destruct (mentions_metric models is_metric cols) eqn:Em; [discriminate|].
+  destruct (ref_models models cols) as [|m0 [|? ?]] eqn:Er; try discriminate. intros H. injection H as <-. split.
+  - intros tc m' Hin Hr. split.
+    + assert (Hm : In m' (ref_models models cols)).
+      { unfold ref_models. apply in_dedup. apply in_flat_map. exists tc. split; [exact Hin|]. rewrite Hr. left. reflexivity. }
+      rewrite Er in Hm. destruct Hm as [->|[]]. reflexivity.
+    + destruct (is_metric m' (snd tc)) eqn:E; [|reflexivity]. exfalso.
+      assert (mentions_metric models is_metric cols = true).
+      { unfold mentions_metric. apply existsb_exists. exists tc. split; [exact Hin|]. rewrite Hr. exact E. }
+      congruence.
+  - assert (Hm : In m0 (ref_models models cols)) by (rewrite Er; left; reflexivity).
+    unfold ref_models in Hm. apply dedup_in in Hm. apply in_flat_map in Hm. destruct Hm as (tc & _ & Hm).
+    destruct (ref_model models tc) as [mm|] eqn:E; [|destruct Hm]. destruct Hm as [<-|[]].
+    unfold ref_model in E. destruct (String.eqb (fst tc) ""); [discriminate|].
+    destruct (Classify.mem_s (recover (fst tc)) models) eqn:E2; [|discriminate]. injection E as <-.
+    unfold Classify.mem_s in E2. apply existsb_exists in E2. destruct E2 as (z & Hz & Ez). apply String.eqb_eq in Ez. subst z. exact Hz.
+Qed.
